@@ -468,9 +468,9 @@ func (x *Exec) doBinOp(st *State, in *ssa.BinOp) {
 			set(App("mod", SInt, a.T, b.T))
 		}
 	case token.AND, token.OR, token.XOR, token.SHL, token.SHR, token.AND_NOT:
-		f := x.declareFun("bitop!"+in.Op.String(), []Sort{SInt, SInt}, SInt)
-		r := App(sym("bitop!"+in.Op.String()), SInt, a.T, b.T)
-		_ = f
+		opName := map[token.Token]string{token.AND: "and", token.OR: "or", token.XOR: "xor", token.SHL: "shl", token.SHR: "shr", token.AND_NOT: "andnot"}[in.Op]
+		f := x.declareFun("bitop!"+opName, []Sort{SInt, SInt}, SInt)
+		r := App(f, SInt, a.T, b.T)
 		st.assume(x.wf(r, in.Type()))
 		set(r)
 	default:
